@@ -250,6 +250,23 @@ func materialise(specs []BSpec) ([]*MBlob, error) {
 				js = fmt.Sprintf("{\"camliVersion\": 1,\n\"camliType\": \"directory\",\n\"fileName\": %q,\n\"unixPermission\": \"0755\"\n}", r)
 			case "bytesField":
 				js = fmt.Sprintf("{\"camliVersion\": 1,\n\"camliType\": \"bytes\",\n\"parts\": [],\n\"comment\": \"see %s\"\n}", r)
+			// link fields of ANOTHER schema type: "parts" links only in file and
+			// bytes blobs, "entries" only in a directory, "members" and
+			// "mergeSets" only in a static-set
+			case "dirParts":
+				js = fmt.Sprintf("{\"camliVersion\": 1,\n\"camliType\": \"directory\",\n\"fileName\": %q,\n\"unixPermission\": \"0755\",\n\"parts\": [\n  {\"blobRef\": %q, \"size\": 3}\n]\n}", "d-"+sp.Text, r)
+			case "ssetParts":
+				js = fmt.Sprintf("{\"camliVersion\": 1,\n\"camliType\": \"static-set\",\n\"members\": [],\n\"parts\": [\n  {\"blobRef\": %q, \"size\": 3}\n],\n\"verifNote\": %q\n}", r, sp.Text)
+			case "symlinkParts":
+				js = fmt.Sprintf("{\"camliVersion\": 1,\n\"camliType\": \"symlink\",\n\"fileName\": %q,\n\"symlinkTarget\": \"elsewhere\",\n\"parts\": [\n  {\"bytesRef\": %q, \"size\": 3}\n]\n}", "l-"+sp.Text, r)
+			case "fileMembers":
+				js = fmt.Sprintf("{\"camliVersion\": 1,\n\"camliType\": \"file\",\n\"fileName\": %q,\n\"unixPermission\": \"0644\",\n\"parts\": [],\n\"members\": [\n  %q\n],\n\"mergeSets\": [\n  %q\n]\n}", "m-"+sp.Text, r, r)
+			case "fileEntries":
+				js = fmt.Sprintf("{\"camliVersion\": 1,\n\"camliType\": \"file\",\n\"fileName\": %q,\n\"unixPermission\": \"0644\",\n\"parts\": [],\n\"entries\": %q\n}", "e-"+sp.Text, r)
+			case "ssetEntries":
+				js = fmt.Sprintf("{\"camliVersion\": 1,\n\"camliType\": \"static-set\",\n\"members\": [],\n\"entries\": %q,\n\"verifNote\": %q\n}", r, sp.Text)
+			case "dirMembers":
+				js = fmt.Sprintf("{\"camliVersion\": 1,\n\"camliType\": \"directory\",\n\"fileName\": %q,\n\"unixPermission\": \"0755\",\n\"members\": [\n  %q\n],\n\"mergeSets\": [\n  %q\n]\n}", "dm-"+sp.Text, r, r)
 			default:
 				return nil, fmt.Errorf("blob %d: unknown mention form %q", i, sp.Form)
 			}
